@@ -263,7 +263,9 @@ class Sig(Base):
         with self._lock:
             self.subs.append(cb)
         if run:
+            self.ledger.append(("dev", self.name, "initial-cb", self.value, None))
             self._call(cb, self.value, self.value)
+            self.ledger.append(("dev", self.name, "initial-cb-done", self.value, None))
         return len(self.subs)
 
     def clear_sub(self, cb, event_type=None):
@@ -286,6 +288,7 @@ class Sig(Base):
             subs = list(self.subs)
         for cb in subs:
             self._call(cb, value, old)
+        self.ledger.append(("dev", self.name, "put-done", value, None))
 
 
 class Flyer(Base):
